@@ -4,9 +4,9 @@
 (* N + (number of successful packets) modulo 2^128 - an inductive          *)
 (* invariant discharged by Apalache (SMT), not an enumeration.             *)
 (* IncClosed is the non-recursive form of ApiAead!IncAt (Apalache has no   *)
-(* recursive operators); MC_Nonce checks IncClosed = IncAt with TLC on     *)
-(* every value of the scaled domains.                                      *)
-EXTENDS Integers
+(* recursive operators), taken from NonceClosed.tla; MC_Nonce checks it    *)
+(* equal to IncAt with TLC on every value of the scaled domains.           *)
+EXTENDS Integers, NonceClosed
 
 D == 16
 B == 256
@@ -26,25 +26,32 @@ VARIABLES
   \* @type: Int;
   v0,
   \* @type: Int;
-  good
+  good,
+  \* @type: Int;
+  wraps
 
 \* @type: (Int -> Int) => Int;
 Val(f) == f[1] * W(1) + f[2] * W(2) + f[3] * W(3) + f[4] * W(4) + f[5] * W(5) + f[6] * W(6) + f[7] * W(7) + f[8] * W(8)
         + f[9] * W(9) + f[10] * W(10) + f[11] * W(11) + f[12] * W(12) + f[13] * W(13) + f[14] * W(14) + f[15] * W(15) + f[16] * W(16)
 
 \* @type: (Int -> Int) => (Int -> Int);
-IncClosed(f) == [i \in 1..D |-> IF \A j \in 1..D : j > i => f[j] = B - 1
-                                THEN (IF f[i] = B - 1 THEN 0 ELSE f[i] + 1) ELSE f[i]]
+IncClosed(f) == IncClosedG(f, D, B)
 
-TypeOK == n \in [1..D -> 0..(B - 1)] /\ v0 \in 0..(M - 1) /\ good \in Nat
-IndInv == TypeOK /\ Val(n) = (v0 + good) % M
+TypeOK == n \in [1..D -> 0..(B - 1)] /\ v0 \in 0..(M - 1) /\ good \in Nat /\ wraps \in Nat
+\* modulo-free form of Val(n) = (v0 + good) % M: wraps (a ghost) counts the passages through all-255
+IndInv == TypeOK /\ Val(n) + wraps * M = v0 + good
 
 \* the one-step lemma without modulo: +1, wrapping from all-255 to all-zero
 StepLemma == Val(IncClosed(n)) = IF Val(n) = M - 1 THEN 0 ELSE Val(n) + 1
 
-Init == n \in [1..D -> 0..(B - 1)] /\ v0 = Val(n) /\ good = 0
+\* negative control: an increment that saturates instead of wrapping at 2^128 must be refuted
+\* @type: (Int -> Int) => (Int -> Int);
+IncSaturating(f) == IF \A j \in 1..D : f[j] = B - 1 THEN f ELSE IncClosed(f)
+BadLemma == Val(IncSaturating(n)) = IF Val(n) = M - 1 THEN 0 ELSE Val(n) + 1
+
+Init == n \in [1..D -> 0..(B - 1)] /\ v0 = Val(n) /\ good = 0 /\ wraps = 0
 \* a successful packet advances the stored nonce; a failed decryption leaves it alone
-Success == n' = IncClosed(n) /\ good' = good + 1 /\ UNCHANGED v0
-Failure == UNCHANGED <<n, v0, good>>
+Success == n' = IncClosed(n) /\ good' = good + 1 /\ wraps' = (IF Val(n) = M - 1 THEN wraps + 1 ELSE wraps) /\ UNCHANGED v0
+Failure == UNCHANGED <<n, v0, good, wraps>>
 Next == Success \/ Failure
 =========================================================================
